@@ -116,16 +116,19 @@ func runC05(p *Program, r *Report) {
 		textTreeStores = append(textTreeStores, storesToField(g, "text/template", "Template", "Tree")...)
 		commits = append(commits, callsIn(g, "(*"+pkgTemplate+".escaper).commit")...)
 	}
-	var okStores, failStores, nilTree, nilTextTree []*ssa.Store
-	for _, st := range errStores {
-		if u, ok := st.Val.(*ssa.UnOp); ok {
-			if g, ok := u.X.(*ssa.Global); ok && cname(g) == "errEscapeOK" {
-				okStores = append(okStores, st)
-				continue
-			}
+	// the record of the outcome in the template, by what the root analysis stores (statusabs.go)
+	ts := discoverTmplStatus(p)
+	if ts.problem != "" {
+		r.Undec("C05.R1", cn+"#outcome-record", p.Pos(et.Pos()), ts.problem)
+	} else {
+		var fv []string
+		for _, f := range ts.fails {
+			fv = append(fv, f.render(ts))
 		}
-		failStores = append(failStores, st)
+		r.OK("C05.R1", cn+"#outcome-record", p.Pos(et.Pos()), "the outcome is recorded in the template as "+ts.ok.render(ts)+" on success and "+strings.Join(fv, " / ")+" on failure; a fresh template has "+ts.fresh.render(ts))
 	}
+	_ = errStores
+	var nilTree, nilTextTree []*ssa.Store
 	for _, st := range treeStores {
 		if isNilConst(st.Val) {
 			nilTree = append(nilTree, st)
@@ -200,7 +203,14 @@ func runC05(p *Program, r *Report) {
 			bodyClean := pth.HasMatching(func(name string, val bool) bool {
 				return val && strings.HasPrefix(name, "(== ") && strings.Contains(name, "escapeTree(") && strings.HasSuffix(strings.Split(name, "@")[0], ".err nil)")
 			})
-			sticky := !member || pathPassesAny(pth, failStores)
+			final, _ := ts.finalStatus(pth)
+			isFailRecord := false
+			for _, f := range ts.fails {
+				if f.equal(final, ts.fields) {
+					isFailRecord = true
+				}
+			}
+			sticky := !member || (ts.problem == "" && isFailRecord && !final.equal(ts.ok, ts.fields) && !final.equal(ts.fresh, ts.fields))
 			emptied := !member || (pathPassesAny(pth, nilTree) && pathPassesAny(pth, nilTextTree))
 			keptTree := !pathPassesAny(pth, nilTree) && !pathPassesAny(pth, nilTextTree)
 			okMemo := false
@@ -221,7 +231,8 @@ func runC05(p *Program, r *Report) {
 			nOK++
 			member := pth.HasMatching(inSet)
 			c := fmt.Sprintf("%s#success-path[%s]", cn, shortPath(pth))
-			okC := pathPassesAny(pth, commits) && (!member || pathPassesAny(pth, okStores))
+			final, _ := ts.finalStatus(pth)
+			okC := pathPassesAny(pth, commits) && (!member || (ts.problem == "" && final.equal(ts.ok, ts.fields)))
 			r.Check(okC, "C05.R1", c, pos, "success commits the edits and stores errEscapeOK", "a nil return without commit() / errEscapeOK")
 		}
 	}
@@ -249,12 +260,13 @@ func runC05(p *Program, r *Report) {
 			if !ok {
 				continue
 			}
+			if !ts.pathFeasible(gpe, pth) {
+				continue // the conditions assumed about the template's record contradict each other
+			}
 			n++
 			pos := p.Pos(pth.End().Pos())
 			c := fmt.Sprintf("%s#path[%s]", gn, shortPath(pth))
-			escOK := pth.HasMatching(func(name string, val bool) bool {
-				return val && strings.Contains(name, "escapeErr") && strings.Contains(name, "errEscapeOK") && strings.HasPrefix(name, "(==")
-			})
+			escOK := ts.pathImplies(gpe, pth, "ok")
 			analysedOK := pth.HasMatching(func(name string, val bool) bool {
 				return val && strings.HasPrefix(name, "(== "+pkgTemplate+".escapeTemplate(")
 			})
@@ -271,12 +283,16 @@ func runC05(p *Program, r *Report) {
 				}
 				e := gpe.pv.Of(v)
 				_, isErrorf := isCallTo(v, "fmt.Errorf")
-				isSticky := e.Op == "field" && e.Name == "escapeErr"
+				isSticky := false
+				if u, isLoad := v.(*ssa.UnOp); isLoad && u.Op == token.MUL {
+					if _, isStatus := ts.statusFieldAddr(u.X); isStatus && isErrorType(v.Type()) {
+						isSticky = true
+					}
+				}
+				_ = e
 				if isSticky {
-					// must not be a nil or "OK" value on this path
-					notNil := pth.HasMatching(func(name string, val bool) bool {
-						return !val && strings.Contains(name, "escapeErr") && strings.HasSuffix(strings.Split(name, "@")[0], " nil)")
-					})
+					// must not be a nil or "OK" value on this path: the path is only possible for a failed template
+					notNil := ts.pathImplies(gpe, pth, "failed")
 					r.Check(notNil, "C05.R2", c, pos, "returns the stored sticky error", "returns escapeErr on a path where it may be nil")
 				} else {
 					r.Check(isCall || isErrorf, "C05.R2", c, pos, "returns the analysis result or a fresh error", "returns an error value of unknown origin: "+e.String())
